@@ -111,8 +111,23 @@ impl DealerSocketOutgoingProcessor {
               "[DealerProc {}] route_message failed (all peers full or no peers). Re-queuing.",
               self.core_handle
             );
-            self.pending_queue.lock().await.push_front(returned);
+            if !returned.is_empty() {
+              self.pending_queue.lock().await.push_front(returned);
+            }
             self.busy.store(false, std::sync::atomic::Ordering::Release);
+            if self.outgoing_orchestrator.has_connections() {
+              // Every peer is full right now; nothing will signal us when a pipe drains, so look
+              // again shortly instead of leaving the parked messages behind.
+              tokio::select! {
+                biased;
+                _ = self.stop_signal.notified() => {
+                  tracing::debug!("[DealerProc {}] Stop signal received while retrying. Exiting.", self.core_handle);
+                  return;
+                }
+                _ = tokio::time::sleep(Duration::from_millis(5)) => {}
+              }
+              continue;
+            }
             break;
           }
         }
@@ -662,9 +677,14 @@ impl DealerSocket {
 
     match self.outgoing_orchestrator.route_message(zmtp_wire_frames, false).await {
       Ok(()) => Ok(()),
-      Err((returned, _)) => {
+      // No peer at all yet: park the message until one connects.
+      Err((returned, _)) if !returned.is_empty() && !self.outgoing_orchestrator.has_connections() => {
         self.queue_message_or_error(returned, global_sndhwm, global_sndtimeo).await
       }
+      // Peers exist but none could take it within SNDTIMEO (or the connection went away): the
+      // send is refused. Parking it would report success for a message that is stuck behind a
+      // full pipe, and on a timeout the batch has already been consumed (an empty one came back).
+      Err((_, e)) => Err(e),
     }
   }
 
